@@ -27,6 +27,20 @@ CLAIMED.update({
             "range): cmp antisymmetric/total/transitive, Equal <=> ==, == <=> same text, equal => same hash stream, order == stated rule, print/parse round trip, "
             "identical edits give identical revisions, digest independent of insertion order.", "DESIGN.md §5 C19"),
 })
+CLAIMED.update({
+    "C03": ("Kernel part: DataStorage pack writer vs pack re-indexer over the real MemoryAdapter, executed from MIR, for every string content over the alphabet "
+            "{ } [ ] , : \" \\ a up to the stated length, several object skeletons, 0..2 (thorough 3) objects per pack: every staged value is readable with the same "
+            "content from the writing storage, a reopened storage and a refreshed storage. Found the brace-in-string defect (fixed). Melda-level commit->reopen not yet covered here.", "DESIGN.md §5 C03"),
+    "C07": ("Melda-level, executed from MIR: two replicas, update/update, update/delete, delete/delete conflicts on an object with symbolic values; every live leaf chosen; "
+            "conflict cleared, value = value at chosen revision, deletion => absent and winner is a deletion, choosing the winner leaves the document unchanged, commit + "
+            "propagation gives identical state, independent resolutions on both replicas converge. Found the resolve-to-deletion defect (fixed).", "DESIGN.md §5 C07"),
+    "C08": ("Single client thread: every lock acquisition of the MIR is tracked; re-acquiring a held Mutex/RwLock (self-deadlock) or any panic on a well-formed scenario is a "
+            "violation. Scenario: concurrent array edits, exchange, further edit, commit, stage, snapshot, unstage, refresh, reload, getters. Found the commit self-deadlock (fixed). "
+            "Worker-pool sizes / real interleavings are not applicable to this technique.", "DESIGN.md §5 C08"),
+    "C10": ("Melda::new over a 2-commit storage with one injected junk item (symbolic ASCII name with block/pack extension incl. over-long digit runs) or one damaged item "
+            "(removed, emptied, truncated, any single byte at first/middle/last position replaced by any other byte - decided through the injective digest model): never a "
+            "panic; either Err or exactly the state of the intact causally complete subset. Found the DeltaId::from overflow panic (fixed).", "DESIGN.md §5 C10"),
+})
 NA_REASON_PENDING = "check not built yet in this revision of /verif (Melda-level MIR reach in progress); not claimed"
 
 checks = []
